@@ -223,8 +223,83 @@ def path_csi(ctx, job, box):
             Check(frame_ok(L, pre, post), scenario, describe, label='CSI %s changed state other than the cursor' % fin)]
 
 
+def path_parser(ctx, job, box):
+    """End to end: CSI [digits] [; digits] final through Parser<Screen> -- parameter collection, defaulting
+    (an omitted number reaches the screen as 0) and the motion rule together."""
+    from ..state import Ev
+    prog, L = G['prog'], G['L']
+    eng = Engine(prog, ctx)
+    box['eng'] = eng
+    fin = job.params['final']
+    nd1, nd2 = job.params['digits']
+    op = FINALS[fin]
+    ss = SymScreen(ctx, eng, L, buffer='none', tabstops=0, savepoints=0, titles='none', saved_columns='none')
+    ses = Session(eng, L, screen=ss.value)
+    pre = ss.value
+
+    def digits(tag, n):
+        ds = []
+        for i in range(n):
+            d = ctx.bvvar('%s%d' % (tag, i), 32)
+            ctx.assume(z3.And(z3.UGE(d, 48), z3.ULE(d, 57)))
+            ds.append(d)
+        return ds
+
+    def value(ds):
+        v = z3.BitVecVal(0, 32)
+        for d in ds:
+            v = v * 10 + (d - 48)
+        return v
+    d1 = digits('a', nd1)
+    d2 = digits('b', nd2) if nd2 is not None else None
+    chars = [0x9b] + d1 + ([ord(';')] + d2 if d2 is not None else []) + [ord(fin)]
+    outcome, msg = 'ok', None
+    try:
+        ses.feed(Str(tuple(chars)))
+    except Panic as e:
+        outcome, msg = 'panic', str(e)
+    post = ses.screen
+
+    def jsteps(model):
+        ev = Ev(model)
+        return [['feed_cps', [ev.int(c) for c in chars]]]
+
+    def scenario(model):
+        st = snapshot(eng, L, pre, model)
+        sc = {'cols': st['columns'], 'lines': st['lines'], 'state': st, 'steps': jsteps(model)}
+        if outcome == 'panic':
+            return sc, {'ok': False, 'panic': msg, 'out': []}
+        return sc, {'ok': True, 'out': [snapshot(eng, L, post, model)]}
+
+    def describe(model):
+        st = snapshot(eng, L, pre, model)
+        return {'geom': [st['columns'], st['lines']], 'cursor': [st['cursor']['x'], st['cursor']['y']],
+                'margins': st['margins'], 'DECOM': 192 in st['mode'],
+                'input': ''.join(chr(c) for c in jsteps(model)[0][1]).encode('unicode_escape').decode(),
+                'outcome': outcome if outcome == 'ok' else 'panic: ' + str(msg)}
+
+    if outcome == 'panic':
+        return Check(False, scenario, describe, outcome='panic', label='panic: %s' % msg)
+    a = (True, value(d1))            # the recogniser always delivers a first parameter (0 when omitted)
+    b = (True, value(d2)) if d2 is not None else (False, 0)
+    ex, ey = expected(op, ss, a, b)
+    cur = post.f[L.screen['cursor']]
+    px = z3.ZeroExt(32, bv(cur.f[L.cursor['x']]))
+    py = z3.ZeroExt(32, bv(cur.f[L.cursor['y']]))
+    return [Check(z3.And(px == ex, py == ey), scenario, describe,
+                  label='CSI %s through the parser: cursor position differs from the documented rule' % fin),
+            Check(frame_ok(L, pre, post), scenario, describe, label='CSI %s through the parser changed other state' % fin)]
+
+
 def jobs(tier):
     js = []
+    for fin in FINALS:
+        shapes = [(0, None), (1, None), (2, None)]
+        if FINALS[fin] == 'cursor_position':
+            shapes += [(0, 0), (1, 1), (0, 2), (2, 0)]
+        for sh in shapes:
+            js.append(Job('parser/%s/%s' % (fin, '%d' % sh[0] + ('' if sh[1] is None else ';%d' % sh[1])), path_parser,
+                          final=fin, digits=sh, prop=PROP))
     for op in ONE + TWO + NOARG:
         js.append(Job('api/' + op, path_api, op=op, prop=PROP))
     for fin in FINALS:
@@ -239,6 +314,7 @@ META = {
                   'ensure_hbounds', 'ensure_vbounds', 'ParserListener::csi_dispatch'],
     'bounds': 'columns 1..=140 and lines 1..=40 symbolic; cursor x in 0..=columns, y in 0..lines; margins absent or '
               '0<=top<bottom<=lines-1; DECOM and every other mode symbolic; each parameter absent or 0..=9999; '
-              'csi_dispatch with 0..2 (thorough 3) parameters for finals A B C D E F G H a d e f',
+              'csi_dispatch with 0..2 (thorough 3) parameters for finals A B C D E F G H a d e f; the same finals end to end '
+              'through Parser<Screen> with 0..2 symbolic digits per parameter',
     'outside': 'geometries above 140x40; parameters above 9999 (the recogniser saturates there); the recogniser itself (C03)',
 }
